@@ -55,12 +55,20 @@ CLAIMED = {
         technique="Lean 4 theorems with a tracing converter (order and multiplicity of converter operations) + compiler-correctness theorem (effects of operand evaluation preserved in order) + correspondence + tracer oracle",
         design="7/C04"),
     "C05": dict(
-        text="Theorems (Props/C05.lean) about the Batch emitter model, for every program without any hypothesis: every statement leaves parenthesis depth and the heights of the if/loop/"
+        text="SEMANTIC PRESERVATION, PARTIAL (Props/C05Sem.lean, batch_preserves_straight_line_semantics_partial): for every program made of definitions and assignments of one "
+             "variable, print and a final panic, over every integer / boolean / string expression of the scalar fragment, the lines the Batch converter emits, executed by the Lean "
+             "cmd model Sem/Cmd (run-time !name! expansion, 32-bit set /A on canonical decimal operands, numeric versus quoted string IF, the echo routine, goto :end with the exit "
+             "code in _e), print what the 32-bit source semantics Sem/Src32 prints and end the same way - all programs of that shape, any number of statements, any expression depth. "
+             "NOT proved: control flow (labels, goto, parenthesised blocks), simultaneous assignment, functions, slices, string operations - there Sem/Cmd is an executable "
+             "program-counter machine that is compared in every run with lib/cmdsim.py and the 32-bit reference on the generated programs of the scalar fragment. "
+             "Structure (Props/C05.lean), for every program without any hypothesis: every statement leaves parenthesis depth and the heights of the if/loop/"
              "end-label/function stacks unchanged, all stacks are empty at the end, every emitted script has balanced parentheses (helpers included), label numbers are handed out "
-             "once. Semantics under cmd.exe: the cmd model (lib/cmdsim.py, calibrated on the suite's expectations in every run) executes the real script of every generated program "
-             "and compares with the 32-bit reference result -- a search, not a proof.",
-        note=TB + "no cmd.exe exists in the sandbox; cmd.exe's rules are those of the cmd model (DESIGN.md appendix F).",
-        technique="Lean 4 graded-walk theorems on the Batch emitter model + byte-for-byte correspondence + execution under a calibrated cmd.exe model",
+             "once. Beyond the theorem's fragment the semantics under cmd.exe is SEARCHED: the cmd model (lib/cmdsim.py, calibrated on the suite's expectations in every run) executes "
+             "the real script of every generated program and compares with the 32-bit reference result.",
+        note=TB + "no cmd.exe exists in the sandbox; cmd.exe's rules are those of Sem/Cmd (for the theorem) and of the cmd model lib/cmdsim.py, which works on the rendered text "
+                  "(DESIGN.md appendix F); the two are compared on every scalar program of every run, Sem/Src32 with the 32-bit reference interpreter.",
+        technique="Lean 4 compiler-correctness theorem (32-bit source semantics vs Lean cmd model, straight-line scalar fragment; partial) + graded-walk theorems on the Batch emitter "
+                  "model + byte-for-byte correspondence + both semantic models validated against a calibrated cmd.exe model and the 32-bit reference + execution of every script under that model",
         design="7/C05"),
     "C06": dict(
         text="Calls (calls_agree_with_signatures): in the program built from a main file every call of the file's own statements names a function declared before it - by the imported "
